@@ -16,7 +16,10 @@ RULE = ("three grammar families: (1) random grammars with the left-recursion-avo
         "symbols, generated under EVERY relative alphabetical order of the names of X and N1..Nk "
         "((k+1)! orders, enumerated), start symbol inside or outside the cycle, dict order shuffled; (4) the mirror "
         "family that must be ACCEPTED: right recursion X -> N1..Nk B X behind nullable symbols and a "
-        "non-nullable B, under every relative name order of X, B, N1..Nk (30 orders). "
+        "non-nullable B, under every relative name order of X, B, N1..Nk (30 orders); (5) LL(1) grammars "
+        "to which a left-recursive symbol without any terminating alternative is added; (6) all 16 option "
+        "sets of a ListProds template whose delimiter is a non-terminal (recursive iff item and delimiter "
+        "can both be empty). "
         "Oracle 1: the harness decides left recursion on the user's grammar by cycle search in the "
         "'can start with, behind nullable symbols' graph; constructor must raise GrammarIsRecursive iff a "
         "cycle exists, and nothing else (AssertionError is tolerated only for adjacent duplicate "
@@ -68,6 +71,13 @@ def make_case(ctx, rng, i):
         order = ORDERS[(i // 5 + ctx.shard) % len(ORDERS)]
         prods, start = gram.hidden_cycle_grammar(rng, terms, order)
         kind = "hidden-cycle:" + "".join(map(str, order))
+    elif r == 1 and i % 15 == 1:
+        for _ in range(8):
+            prods = gram.gen_ll1_candidate(rng, terms)
+            if not gram.left_recursion_cycle(prods) and gram.is_ll1(prods, 'E'):
+                break
+        prods, start = add_useless_left_recursive_symbol(rng, terms, prods), 'E'
+        kind = "ll1-plus-useless-left-recursive-symbol"
     elif r == 1:
         prods, start = gram.gen_grammar(rng, terms, lr_bias=0.0, max_alts=rng.choice([3, 4, 6])), 'E'
         kind = "random-no-bias"
@@ -83,6 +93,102 @@ def make_case(ctx, rng, i):
             prods[nt] = prods[nt] + [(nt, rng.choice(terms)), (nt, rng.choice(terms), rng.choice(terms))]
         kind = "prefix-groups"
     return cfg_id, terms, prods, start, kind
+
+
+LIST_TOK = r"(?P<SPACE>\s+)|(?P<BO>\[)|(?P<BC>\])|(?P<COMMA>,)|(?P<W>[a-z]+)"
+LIST_SYN = {'BO': '[', 'BC': ']', 'COMMA': ',', 'W': 'w'}
+
+
+def run_list_template_case(ctx, mon, opts):
+    """a ListProds whose delimiter is a NON-TERMINAL: left recursive (through the generated tail
+    symbol) iff both the delimiter and the item can be empty"""
+    item_nullable, delim_nullable, afd, optional = opts
+
+    def user_productions():
+        # a template object belongs to one parser: build new ones for every constructor call
+        return {
+            'E': [('LIST',)],
+            'LIST': llparser.ListProds('[', 'ITEM', 'DELIM', ']', allow_final_delimiter=afd,
+                                       optional=optional or None),
+            'ITEM': [('w',)] + ([None] if item_nullable else []),
+            'DELIM': [(',',)] + ([None] if delim_nullable else []),
+        }
+    # the productions the template stands for (documented in its doc string)
+    expanded = {
+        'E': [('LIST',)],
+        'LIST': [('[', ']'), ('[', 'ITEM', 'TAIL', ']')] + ([()] if optional else []),
+        'TAIL': [('DELIM', 'ITEM', 'TAIL')] + ([('DELIM',)] if afd else []) + [()],
+        'ITEM': [('w',)] + ([()] if item_nullable else []),
+        'DELIM': [(',',)] + ([()] if delim_nullable else []),
+    }
+    cycle = gram.left_recursion_cycle(expanded)
+    case = {"kind": "list-template", "opts": list(opts)}
+    for smart in (True, False):
+        ctx.evaluated()
+        mon.start_ctor(CTOR_LINE_BOUND)
+        try:
+            parser = llparser.LLParser(LIST_TOK, synonyms=LIST_SYN, productions=user_productions(),
+                                       smart_factorization=smart)
+        except llmon.CtorStepBoundExceeded:
+            ctx.violation("left-recursion-check-exceeds-step-bound", {"opts": list(opts)}, case)
+            continue
+        except llparser.GrammarIsRecursive:
+            if cycle is None:
+                ctx.violation("non-recursive-grammar-rejected", {"template": "ListProds", "opts": list(opts)}, case)
+            else:
+                ctx.count("left_recursive_rejected")
+            continue
+        except llparser.GrammarError as err:
+            ctx.violation("unexpected-grammar-error", {"msg": str(err)[-200:]}, case)
+            continue
+        except AssertionError as err:
+            ctx.violation("constructor-assertion", {"template": "ListProds", "msg": str(err)[:150]}, case)
+            continue
+        if cycle is not None:
+            ctx.violation("left-recursive-grammar-accepted", {"template": "ListProds", "opts": list(opts),
+                                                              "cycle": cycle}, case)
+        ctx.count("accepted_grammars")
+        for text in ("[]", "[w]", "[w, w]", "[w w]", "[,]", "[w,]", "[", "w", "[w,,w]", ""):
+            ctx.evaluated()
+            mon.reset()
+            mon.stack_bound = (len(text) + 3) * (len(parser.prods_map) + 2)
+            try:
+                parser.parse(text)
+            except llparser.Error:
+                pass
+            except llmon.StackBoundExceeded as err:
+                ctx.violation("parse-stack-grows-without-bound", {"text": text, "stack_len": int(str(err))}, case)
+            except llmon.BudgetExceeded:
+                ctx.inconclusive_note("step budget exceeded")
+            except (Exception, MemoryError, RecursionError) as err:
+                ctx.violation("parse-raises-other-exception", {"text": text, "type": type(err).__name__}, case)
+            finally:
+                mon.stack_bound = None
+                ctx.count("pushes_observed", mon.pushes)
+    ctx.nontrivial("list-template:" + repr(opts))
+
+
+def add_useless_left_recursive_symbol(rng, terms, prods):
+    """a symbol without any terminating alternative (so its productions get no table entries)
+    that is left recursive; the rest of the grammar stays as it is"""
+    free = [n for n in gram.NT_NAMES + ['X', 'Y'] if n not in prods]
+    x = free[0]
+    t = rng.choice(terms)
+    if rng.random() < 0.5 or len(free) < 2:
+        prods[x] = [(x, t)] + ([(x, t, rng.choice(terms))] if rng.random() < 0.4 else [])
+    else:
+        y = free[1]
+        prods[x] = [(y, t)]
+        prods[y] = [(x, rng.choice(terms))]
+    if rng.random() < 0.4:
+        # referenced at the end of an existing alternative
+        nt = rng.choice([n for n in prods if n not in (x,) and prods[n] and n in gram.NT_NAMES + ['E']])
+        alts = list(prods[nt])
+        k = rng.randrange(len(alts))
+        if alts[k] and alts[k][0] in terms:
+            alts[k] = alts[k] + (x,)
+            prods[nt] = alts
+    return prods
 
 
 def run_case(ctx, mon, cfg_id, terms, prods, start, kind, inputs_spec=None, rng=None):
@@ -183,6 +289,9 @@ def run_shard(ctx):
     mon = llmon.ParseMonitor()
     orders = set()
     try:
+        if ctx.shard == 0:
+            for opts in itertools.product((False, True), repeat=4):
+                run_list_template_case(ctx, mon, opts)
         for i in range(ctx.cases):
             rng = ctx.rng(i)
             cfg_id, terms, prods, start, kind = make_case(ctx, rng, i)
@@ -204,6 +313,9 @@ def run_shard(ctx):
 def replay(ctx, case):
     mon = llmon.ParseMonitor()
     try:
+        if case.get("kind") == "list-template":
+            run_list_template_case(ctx, mon, tuple(case["opts"]))
+            return
         prods = {k: [tuple(a) for a in v] for k, v in case["prods"].items()}
         run_case(ctx, mon, case["cfg"], case["terms"], prods, case["start"], case["kind"],
                  inputs_spec=case["inputs"] or None, rng=ctx.rng(0))
